@@ -7,9 +7,10 @@
   the byte values (Nat) the model works on.  `embH` lists the words of a standard chaining value as the `Bits` list
   the object holds in `self.H`.
 -/
-import Proofs.Lemmas.Instances
+import Proofs.Lemmas.EndToEnd
 namespace Proofs.C01
 open Model Model.Gen.Hashes Proofs.Lemmas Proofs.Lemmas.BitsBitVec Proofs.Lemmas.Parse Proofs.Lemmas.Compose
+  Proofs.Lemmas.EndToEnd
 
 /-! ## 1. the regenerated tables and constants are the standards' -/
 
@@ -137,5 +138,76 @@ theorem sha512_compress_refines (c : Sha.Sha2Cfg) (h1 : c.wsize = 64) (h2 : c.si
     (blk : List Spec.Byte) (hb : blk.length = 128) :
     Sha.sha2Compress c (Sha2.embH H) (toNatBytes blk) = .ok (Sha2.embH (Spec.Sha2.compress Spec.Sha2.fam512 H blk)) :=
   Sha2.compress_refines (Sha2.link64 c h1 h2) (by decide) H blk hb
+
+/-! ## 5. padding, composition, end to end -/
+
+/-- every byte string the model is called with (values below 256) is `toNatBytes` of a specification byte string -/
+theorem bytes_are_embedded (m : List Nat) (h : ∀ x ∈ m, x < 256) : ∃ M : List Spec.Byte, m = toNatBytes M := by
+  refine ⟨m.map (BitVec.ofNat 8), ?_⟩
+  simp only [toNatBytes, List.map_map]
+  conv => lhs; rw [← List.map_id m]
+  apply List.map_congr_left
+  intro x hx
+  simp [Nat.mod_eq_of_lt (h x hx)]
+
+/-- **padding equality** (MD/SHA length strengthening; `bigend = true` SHA, `false` MD): in a final call on an object
+    that is not yet padded and has absorbed `st.bitcnt` bits (whole blocks), no exception is raised and the blocks the
+    padding iterator yields are exactly the blocks of  bits ‖ 1 ‖ 0…0 ‖ length  of the standard, for every message,
+    every bit length ≤ 8|M| (or omitted), every block size 8·bl and word size w with 2w+1 ≤ 8·bl. -/
+theorem padding_equality {σ : Type} (p : Padder) (w : Nat) (bigend : Bool)
+    (hlb : ∀ st m kw, p.lastblock st m kw = p.mdLike st m kw w 1 none bigend)
+    (bl ll : Nat) (hB : p.blocksize = 8 * bl) (hbl : 0 < bl) (hw : w * 2 = 8 * ll) (hfit : w * 2 + 1 ≤ p.blocksize)
+    (h : Spec.MDHash σ) (h1 : h.blockLen = bl) (h2 : h.lenLen = ll)
+    (h3 : ∀ l, toNatBytes (h.encLen l) = (Bits.ofNatSz l (w * 2)).pack bigend) (h4 : ∀ l, (h.encLen l).length = ll)
+    (st : PadState) (hpf : st.padflag = false) (hdone : st.bitcnt % p.blocksize = 0)
+    (M : List Spec.Byte) (kw : Option Nat) (hkw : ∀ l, kw = some l → l ≤ 8 * M.length) :
+    (p.iterblocks st (toNatBytes M) kw true).err = none ∧
+    (p.iterblocks st (toNatBytes M) kw true).yields.map (·.1) =
+      (Spec.groups bl (h.padFrom st.bitcnt ((Spec.bytesToBits M).take (kw.getD (8 * M.length))))).map toNatBytes :=
+  PadOk.padOk_core p w bigend hlb bl ll hB hbl hw hfit h h1 h2 h3 h4 st hpf hdone M kw hkw
+
+/-- **the generic Merkle–Damgård composition lemma** (instantiated ten times in `hash_refines`): IV, compression and
+    serialisation refine the standard's + the yielded blocks are the standard's padded blocks ⇒ the one-shot call
+    returns the standard's hash -/
+theorem merkle_damgard_composition {σ : Type} {c : HashCore} {h : Spec.MDHash σ} {emb : σ → List Bits}
+    (R : Refines c h emb) (M : List Spec.Byte) (L : Option Nat) (bits : List Bool) (hp : PadOk c h {} 0 M L bits) :
+    c.hash (toNatBytes M) L = .ok (toNatBytes (h.hash bits)) :=
+  hash_of_refines R M L bits hp
+
+/-- **hash_refines.**  For every one of the ten algorithms, every byte string M and every bit length 0 < L ≤ 8|M|:
+    the one-shot call `h(M,L)` of the library's object returns exactly the digest RFC 1320 / RFC 1321 / FIPS 180-4 define for
+    the first L bits of M. -/
+theorem hash_refines (alg : Model.Alg) (M : List Spec.Byte) (L : Nat) (_h0 : 0 < L) (hL : L ≤ 8 * M.length) :
+    Model.hash alg (toNatBytes M) (some L) = .ok (toNatBytes (Spec.hash (toSpec alg) (Spec.takeBits L M))) :=
+  hash_eq alg M (some L) (fun l hl => by cases hl; exact hL)
+
+/-- …and with the bit length omitted (L = 8|M|): the digest of the whole byte string, the empty string included -/
+theorem hash_refines_omitted (alg : Model.Alg) (M : List Spec.Byte) :
+    Model.hash alg (toNatBytes M) none = .ok (toNatBytes (Spec.hash (toSpec alg) (Spec.bytesToBits M))) := by
+  have := hash_eq alg M none (fun l hl => by cases hl)
+  rw [this]
+  simp only [Option.getD_none]
+  rw [List.take_of_length_le (by rw [SpecList.bytesToBits_length]; exact Nat.le_refl _)]
+
+/-- **digest_length**: every accepted call returns a digest of exactly the advertised length -/
+theorem digest_length (alg : Model.Alg) (M : List Spec.Byte) (L : Option Nat) (hL : ∀ l, L = some l → l ≤ 8 * M.length) :
+    ∃ d, Model.hash alg (toNatBytes M) L = .ok d ∧ d.length = alg.outlen := by
+  refine ⟨_, hash_eq alg M L hL, ?_⟩
+  rw [toNatBytes_length, spec_length]
+
+/-- **bitlen_too_large**: a bit length larger than the supplied data is rejected with an error -/
+theorem bitlen_too_large (alg : Model.Alg) (M : List Nat) (L : Nat) (hL : L > 8 * M.length) :
+    ∃ e, Model.hash alg M (some L) = .error e :=
+  too_large alg M L hL
+
+/-! non-vacuity: the hypotheses are inhabited by non-trivial instances, and the specifications are not degenerate
+    (FIPS 180-4 / RFC 1321 test vector "abc", evaluated in the kernel) -/
+example : ∃ (M : List Spec.Byte) (L : Nat), 0 < L ∧ L ≤ 8 * M.length ∧ L % 8 ≠ 0 := ⟨[0xa5#8, 0x80#8], 9, by decide⟩
+example : ∃ (M : List Nat) (L : Nat), L > 8 * M.length := ⟨[1, 2], 17, by decide⟩
+example : toNatBytes (Spec.hash .sha256 (Spec.bytesToBits [0x61#8, 0x62#8, 0x63#8])) =
+    [0xba, 0x78, 0x16, 0xbf, 0x8f, 0x01, 0xcf, 0xea, 0x41, 0x41, 0x40, 0xde, 0x5d, 0xae, 0x22, 0x23,
+     0xb0, 0x03, 0x61, 0xa3, 0x96, 0x17, 0x7a, 0x9c, 0xb4, 0x10, 0xff, 0x61, 0xf2, 0x00, 0x15, 0xad] := by decide +kernel
+example : toNatBytes (Spec.hash .md5 (Spec.bytesToBits [0x61#8, 0x62#8, 0x63#8])) =
+    [0x90, 0x01, 0x50, 0x98, 0x3c, 0xd2, 0x4f, 0xb0, 0xd6, 0x96, 0x3f, 0x7d, 0x28, 0xe1, 0x7f, 0x72] := by decide +kernel
 
 end Proofs.C01
